@@ -437,6 +437,16 @@ fn cmd_compile(v: &Value) -> Value {
             )
         });
     }
+    if let Some(exps) = v.get("sub_exps").and_then(|s| s.as_array()) {
+        // what the lowering itself consults: ranges of the same expressions from a real Linearizer context, next to
+        // the variable ranges that context publishes
+        let es: Vec<Exp> = exps.iter().map(exp_of).collect();
+        out["lowering"] = guarded(|| {
+            let (published, ranges) = rooc::Linearizer::verif_lowering_ranges(&model, &es);
+            json!({"published": published.iter().map(|(n, t)| json!([n, vtype_json(t)])).collect::<Vec<_>>(),
+                   "ranges": ranges.iter().map(|(lo, hi)| json!([f(*lo), f(*hi)])).collect::<Vec<_>>()})
+        });
+    }
     let replay = v.get("replay").cloned().unwrap_or(Value::Null);
     out["lin"] = guarded(|| match Linearizer::linearize(model) {
         Ok(l) => {
